@@ -1,0 +1,31 @@
+//go:build verif
+
+// Contracts for the locking genesis import (C18, C13); comment-only.
+package locking
+
+// tkdenom(ts, i) / tkthr(ts, i): denomination and threshold of token record i of the genesis list ts (declared with
+// definitional axioms, triggered by the application or by the element it abbreviates, so that quantified facts match).
+//@ smt (declare-fun tkdenom (Slc_Opt_T_locking_types_TokenGenesis Int) Bytes) (assert (forall ((ts Slc_Opt_T_locking_types_TokenGenesis) (i Int)) (! (= (tkdenom ts i) (T_locking_types_TokenGenesis.Denom (val_Opt_T_locking_types_TokenGenesis (select (arr_Slc_Opt_T_locking_types_TokenGenesis ts) (+ (off_Slc_Opt_T_locking_types_TokenGenesis ts) i))))) :pattern ((tkdenom ts i))))) (assert (forall ((ts Slc_Opt_T_locking_types_TokenGenesis) (k Int)) (! (= (tkdenom ts (- k (off_Slc_Opt_T_locking_types_TokenGenesis ts))) (T_locking_types_TokenGenesis.Denom (val_Opt_T_locking_types_TokenGenesis (select (arr_Slc_Opt_T_locking_types_TokenGenesis ts) k)))) :pattern ((select (arr_Slc_Opt_T_locking_types_TokenGenesis ts) k)))))
+//@ smt (declare-fun tkthr (Slc_Opt_T_locking_types_TokenGenesis Int) Int) (assert (forall ((ts Slc_Opt_T_locking_types_TokenGenesis) (i Int)) (! (= (tkthr ts i) (T_locking_types_Token.Threshold (T_locking_types_TokenGenesis.Token (val_Opt_T_locking_types_TokenGenesis (select (arr_Slc_Opt_T_locking_types_TokenGenesis ts) (+ (off_Slc_Opt_T_locking_types_TokenGenesis ts) i)))))) :pattern ((tkthr ts i))))) (assert (forall ((ts Slc_Opt_T_locking_types_TokenGenesis) (k Int)) (! (= (tkthr ts (- k (off_Slc_Opt_T_locking_types_TokenGenesis ts))) (T_locking_types_Token.Threshold (T_locking_types_TokenGenesis.Token (val_Opt_T_locking_types_TokenGenesis (select (arr_Slc_Opt_T_locking_types_TokenGenesis ts) k))))) :pattern ((select (arr_Slc_Opt_T_locking_types_TokenGenesis ts) k)))))
+//@ smt (define-fun denoms_distinct ((ts Slc_Opt_T_locking_types_TokenGenesis) (n Int)) Bool (forall ((i Int) (j Int)) (! (=> (and (<= 0 j) (< j i) (< i n)) (not (= (tkdenom ts i) (tkdenom ts j)))) :pattern ((tkdenom ts i) (tkdenom ts j)))))
+
+// C18 / C13: the derived power ranking rebuilt on import must satisfy the invariant the running chain maintains (lock,
+// unlock, the punishments and onWeightChanged rank a validator only with positive power): a ranking entry with power 0
+// makes the first end blocker activate the validator and hand CometBFT an update with power 0 for a validator it does
+// not know, which CometBFT rejects (the chain started from that genesis halts in its first block).
+//@ func InitGenesis
+//@ property C18 C13
+// A-genesis (what an export of a running chain satisfies and nothing validates): an ACTIVE validator has voting power.
+//@ requires active_positive: forall(i, 0, len(genState.Validators), genState.Validators[i].Status == 2 ==> genState.Validators[i].Power > 0)
+// the threshold list is rebuilt from the token records: every listed token's threshold, under its denomination
+//@ requires distinct_denoms: denoms_distinct(genState.Tokens, len(genState.Tokens))
+//@ requires thresholds_nonneg: forall(i, 0, len(genState.Tokens), tkthr(genState.Tokens, i) >= 0)
+//@ ensures threshold_rebuilt: has(st.locking.Threshold) && forall(j, 0, len(genState.Tokens), amt(st.locking.Threshold.List, tkdenom(genState.Tokens, j)) == tkthr(genState.Tokens, j))
+//@ writesite locking.PowerRanking positive: key == pair(validator.Power, address) && validator.Power > 0
+//@ writesite locking.ValidatorSet positive_power: val > 0 && val == validator.Power
+//@ loop 0 invariant true
+//@ loop 1 invariant true
+//@ loop 2 invariant thr: forall(j, 0, rangeindex + 1, amt(threshold, tkdenom(genState.Tokens, j)) == tkthr(genState.Tokens, j))
+//@ loop 2 invariant zero_elsewhere: forallb(dn, amt(threshold, dn) == 0 || exists(j, 0, rangeindex + 1, tkdenom(genState.Tokens, j) == dn))
+//@ loop 3 invariant true
+//@ loop 4 invariant true
